@@ -246,7 +246,7 @@ def check_equal_width_grid(rec, bins: np.ndarray, width: Optional[float], shift:
     if not np.array_equal(bins[1:, 0], bins[:-1, 1]):
         fail("fixed-width bins are not contiguous", ["bins"], bins=bins[:6])
         return False
-    mag = float(np.max(np.abs(bins)))
+    mag = float(np.max(np.abs(bins))) + abs(float(shift or 0.0))  # rounding of k*width + shift happens at the larger magnitude
     w = bins[:, 1] - bins[:, 0]
     ref = width if width is not None else float(w[0])
     tol = 4 * _ulp(mag) + 4 * _ulp(ref)
